@@ -341,7 +341,14 @@ def run(p, led, tier):
             led.fail("C09-R6", key, where(m, m.node), f"no path tests the {what} (`{needle}` comparison vanished)")
             continue
         bad = [r for r in hit if r["final"] != "SENESCENT"]
-        if bad:
+        # the quantity compared with a time limit is the whole elapsed time: a timedelta's `.seconds` / `.microseconds`
+        # component alone drops the days (and wraps), so the limit stops firing after 24 h
+        import re as _re
+        trunc = [d[2] for r in hit for d in r["decisions"] if cmp_outcome(d, a_n, b_n) and _re.search(r"(?<!total_)\.(seconds|microseconds)\b(?!\()", d[2]) and ".days" not in d[2]]
+        if trunc and "timeouts" in mname:
+            led.fail("C09-R6", key, where(m, m.node), f"the {what} is compared with a component of the elapsed time, not the elapsed time: `{trunc[0][:160]}` ignores whole days",
+                     witness="max_lifetime_hours=1, clock advanced by 1 day 10 minutes: still ACTIVE and ticking")
+        elif bad:
             led.fail("C09-R6", key, where(m, m.node), f"{len(bad)}/{len(hit)} path(s) on which the {what} test held end in phase {bad[0]['final']}, not SENESCENT")
         else:
             led.ok("C09-R6", key, where(m, m.node), f"{len(hit)} path(s) on which the limit test held all end SENESCENT")
